@@ -17,6 +17,11 @@ Tie:   X — the real limitparallelrequests.New(...) runs under testing/synctest
        judge, same trace inclusion.  Also on connections made by the real constructors: tcp.Client with options.WithLimit…,
        and connections accepted by a real tcp.Server / dtls.Server (in-memory listener) configured with these options, where
        the judge demands AT MOST the server's limits and the model runs with the limits the extracted server wiring yields.
+       X (table level) — the real limiter over the cooperative-mutex endpoint table of C14's build overlay (harness/c14/limiter_test.go,
+       checks/c14.py limiter_check): every critical section of pkg/sync.Map is a scheduling point, all interleavings of 2-3 requests
+       (+ a cancellation) on one and two paths are enumerated; same judge, same trace inclusion.  Props/C16Atomic.lean proves why the
+       model may take an arrival as one atomic event (current_element_refines_atomic, reviewed_shape_refines_atomic) and that it may
+       not when the callback runs on a stale element (stale_element_not_refined).
 Hook:  net/client/limitParallelRequests/export_verif.go (read-only: VerifHash, VerifEntries, VerifEndpoint).
 """
 import glob
@@ -27,7 +32,7 @@ from concurrent.futures import ThreadPoolExecutor
 
 from . import common
 
-MODULES = ["CoapVerif.Props.C16"]
+MODULES = ["CoapVerif.Props.C16", "CoapVerif.Props.C16Atomic"]
 CORPUS = os.path.join(common.VERIF, "corpus", "C16")
 
 
@@ -240,6 +245,8 @@ def explore(ctx, art):
     lines, clines = [], []
     for p in sorted(glob.glob(os.path.join(CORPUS, "*.json"))):
         for l in json.load(open(p)).get("input", []):
+            if l.startswith("coop "):
+                continue              # schedules of the limiter over the cooperative map: run by coop()
             if l.startswith("conn "):
                 clines.append("connreplay " + l)
             else:
@@ -346,22 +353,45 @@ def explore(ctx, art):
     ]
 
 
+def coop_corpus():
+    L = []
+    for p in sorted(glob.glob(os.path.join(CORPUS, "*.json"))):
+        L += [l[5:] for l in json.load(open(p)).get("input", []) if l.startswith("coop lsched ")]
+    return L
+
+
+def coop(ctx, art):
+    """The limiter over the cooperative-mutex endpoint table (C16 x C14, harness/c14/limiter_test.go): the synctest harness above
+    runs every limiter operation to quiescence, so an arrival never meets a release half-way; here every critical section of
+    pkg/sync.Map is a scheduling point and all interleavings are enumerated.  Same judge (Spec/Limiter.lean), same model."""
+    from . import c14
+    exe = c14.build_coop(ctx, "ht_c16coop.test")
+    if exe and art.get("driver"):
+        c14.limiter_check(ctx, exe, art["driver"], "C16", coop_corpus())
+
+
 def run(ctx):
-    art = common.standard_prepare(ctx, MODULES, hx=False, test=True, generated=["LimiterWiring.lean"])
+    art = common.standard_prepare(ctx, MODULES, hx=False, test=True, generated=["LimiterWiring.lean", "SyncShape.lean"])
     if art.get("test"):
         explore(ctx, art)
+    coop(ctx, art)
     return common.finish(ctx)
 
 
 def replay(ctx, rep):
-    art = common.standard_prepare(ctx, MODULES, hx=False, test=True, generated=["LimiterWiring.lean"])
+    art = common.standard_prepare(ctx, MODULES, hx=False, test=True, generated=["LimiterWiring.lean", "SyncShape.lean"])
     lines = rep.get("input") or []
     if not lines:
         print("replay file names no failing input:", rep.get("no_longer_checks"))
         return 1
     bad = 0
     for l in lines:
-        o, j = judge_one(ctx, art, l, tag="replay")
+        if l.startswith("coop "):
+            from . import c14
+            exe = c14.build_coop(ctx, "ht_c16coop.test")
+            o, j = c14.limiter_judge_one(ctx, exe, art["driver"], l[5:], tag="replay") if exe else (None, None)
+        else:
+            o, j = judge_one(ctx, art, l, tag="replay")
         rc, m, _ = common.pipe_lines([art["driver"], "model"], [o or ""])
         print("input : %s\nimpl  : %s\njudge : %s\nmodel : %s" % (l, o, j, m[0] if m else None))
         if not j or j != "ok":
